@@ -120,12 +120,12 @@ Definition sinv (s : sstate) (S : list N) : Prop :=
      exists qs, In (c, m_id m, qs) (st_sent s) /\ answers (mkReq (m_id m) qs) m) /\
   (* exactly once: pending + completed = submitted *)
   (forall c, pending c (st_q s) + tcount c (st_log s) = inb c S) /\
-  (* a connection that is down has no pending request *)
-  (st_conn s <> COpen -> forall c, pending c (st_q s) = 0).
+  (* a connection that is down or idle has no pending request *)
+  (st_conn s <> COpen \/ st_idle s = true -> forall c, pending c (st_q s) = 0).
 
-Lemma sinv_init : sinv s_init [].
+Lemma sinv_init iz : sinv (s_init iz) [].
 Proof.
-  unfold sinv, s_init. cbn [st_q st_conn st_sent st_log]. split; [apply q_inv_new|].
+  unfold sinv, s_init. cbn [st_q st_conn st_sent st_log st_idle]. split; [apply q_inv_new|].
   split; [intros i e H; unfold q_get, slot_at, q_new in H; cbn in H; destruct (N.to_nat i); discriminate|].
   split; [intros c i qs []|]. split; [intros c i qs i' qs' []|]. split; [intros c m []|].
   split; [intros c; reflexivity|]. intros _ c. reflexivity.
@@ -152,18 +152,17 @@ Proof. intros H. apply in_app_or in H. destruct H as [H|[H|[]]]; auto. Qed.
 
 Section Step.
 Variable cs : entry -> msg -> bool * xfr * bool.
-Variable idle_zero : bool.
-
-Lemma after_reply_inv (q : queries entry) : q_inv q ->
-  after_reply idle_zero q COpen <> COpen -> forall c, pending c q = 0.
+Lemma after_reply_inv iz (q : queries entry) : q_inv q ->
+  after_reply iz q COpen <> COpen \/ q_is_empty q = true -> forall c, pending c q = 0.
 Proof.
-  intros Hq. unfold after_reply. destruct (q_is_empty q) eqn:E; cbn [andb]; [|congruence].
-  intros _ c. apply pending_empty; assumption.
+  intros Hq. unfold after_reply. destruct (q_is_empty q) eqn:E; cbn [andb].
+  - intros _ c. apply pending_empty; assumption.
+  - intros [H|H]; congruence.
 Qed.
 
 Lemma s_step_inv (s : sstate) (S : list N) (ev : sevent) :
   sinv s S -> ev_fresh ev S ->
-  exists s', s_step cs idle_zero s ev = Ok s' /\ sinv s' (ev_subs ev S).
+  exists s', s_step cs s ev = Ok s' /\ sinv s' (ev_subs ev S).
 Proof.
   intros (Hq & Hwire & Hsub & Huniq & Hsound & Hcount & Hdown) Hfresh.
   destruct ev as [c qs multi bad x0|m|err]; cbn [s_step ev_subs ev_fresh] in *.
@@ -179,9 +178,9 @@ Proof.
     destruct (st_conn s) eqn:Econn.
     + destruct (insert_spec (st_q s) (mkEntry c qs multi x0 (is_axfr_init x0)) Hq)
         as [(Hfull & E)|(Hroom & q' & idx & E & Hq' & Hidx & Hfree & Hget & _)]; rewrite E; cbn [bind].
-      * eexists. split; [reflexivity|]. unfold sinv. cbn [st_q st_conn st_sent st_log].
+      * eexists. split; [reflexivity|]. unfold sinv. cbn [st_q st_conn st_sent st_log st_idle].
         split; [exact Hq|]. split; [exact Hwire|]. split; [exact Hsub'|]. split; [exact Huniq|].
-        split; [apply Hsound_err|]. split; [apply Hcnt_err|]. intros H; congruence.
+        split; [apply Hsound_err|]. split; [apply Hcnt_err|]. intros [H|H]; [congruence|discriminate].
       * pose proof (insert_shape _ _ _ _ E) as Hshape.
         assert (Hpend : forall c0, pending c0 q' = pending c0 (st_q s) + (if c =? c0 then 1 else 0)).
         { intros c0. unfold pending. destruct Hshape as [(Hset & Hs)|(Happ & _)].
@@ -195,15 +194,15 @@ Proof.
            assert (Hg : q_get q' idx = Some (mkEntry c qs multi x0 (is_axfr_init x0))) by (rewrite Hget; unfold upd; rewrite N.eqb_refl; reflexivity).
            destruct (remove_spec q' idx Hq') as (q'' & Er & Hq'' & Hget'' & _). rewrite Er in Hrem. rewrite Hg in Hrem. rewrite Er.
            destruct Hrem as (Hset & Hs & _).
-           eexists. split; [reflexivity|]. unfold sinv. cbn [st_q st_conn st_sent st_log].
+           eexists. split; [reflexivity|]. unfold sinv. cbn [st_q st_conn st_sent st_log st_idle].
            split; [exact Hq''|]. split.
            { intros i e He. rewrite Hget'' in He. unfold clr in He. destruct (i =? idx) eqn:Ei; [discriminate|].
              rewrite Hget in He. unfold upd in He. rewrite Ei in He. eauto. }
-           split; [exact Hsub'|]. split; [exact Huniq|]. split; [apply Hsound_err|]. split; [|intros H; congruence].
+           split; [exact Hsub'|]. split; [exact Huniq|]. split; [apply Hsound_err|]. split; [|intros [H|H]; [congruence|discriminate]].
            intros c0. pose proof (wsum_set (callw c0) _ _ _ _ _ Hset Hs) as W. cbn [wopt] in W.
            replace (callw c0 (mkEntry c qs multi x0 (is_axfr_init x0))) with (if c =? c0 then 1 else 0) in W by reflexivity.
            specialize (Hpend c0). specialize (Hcnt_err 12 c0). unfold pending in *. lia.
-        -- eexists. split; [reflexivity|]. unfold sinv. cbn [st_q st_conn st_sent st_log].
+        -- eexists. split; [reflexivity|]. unfold sinv. cbn [st_q st_conn st_sent st_log st_idle].
            split; [exact Hq'|]. split.
            { intros i e He. rewrite Hget in He. unfold upd in He. apply in_or_app. destruct (N.eqb_spec i idx) as [->|].
              - inversion He; subst. right. left. reflexivity.
@@ -219,12 +218,12 @@ Proof.
              - inversion H; inversion H'; subst. auto. }
            split.
            { intros c0 m0 H. destruct (Hsound _ _ H) as (qs0 & Hin & Ha). exists qs0. split; [apply in_or_app; left; exact Hin|exact Ha]. }
-           split; [|intros H; congruence].
+           split; [|intros [H|H]; [congruence|discriminate]].
            intros c0. rewrite Hpend, inb_cons. specialize (Hcount c0). rewrite (N.eqb_sym c c0).
            destruct (N.eqb_spec c0 c) as [->|]; [rewrite (inb_not_in _ _ Hfresh) in Hcount|]; lia.
-    + eexists. split; [reflexivity|]. unfold sinv. cbn [st_q st_conn st_sent st_log].
+    + eexists. split; [reflexivity|]. unfold sinv. cbn [st_q st_conn st_sent st_log st_idle].
       split; [exact Hq|]. split; [exact Hwire|]. split; [exact Hsub'|]. split; [exact Huniq|].
-      split; [apply Hsound_err|]. split; [apply Hcnt_err|]. intros _. apply Hdown. congruence.
+      split; [apply Hsound_err|]. split; [apply Hcnt_err|]. intros _. apply Hdown. left. congruence.
   - (* reply *)
     destruct (st_conn s) eqn:Econn.
     2:{ exists s. split; [reflexivity|]. unfold sinv. rewrite Econn. split; [exact Hq|]. split; [exact Hwire|]. split; [exact Hsub|]. split; [exact Huniq|].
@@ -232,8 +231,9 @@ Proof.
     pose proof (remove_shape (st_q s) (m_id m)) as Hrem.
     destruct (remove_spec (st_q s) (m_id m) Hq) as (q' & Er & Hq' & Hget' & _). rewrite Er in Hrem |- *.
     destruct (q_get (st_q s) (m_id m)) as [e|] eqn:Eg.
-    2:{ exists s. split; [reflexivity|]. unfold sinv. rewrite Econn. split; [exact Hq|]. split; [exact Hwire|]. split; [exact Hsub|]. split; [exact Huniq|].
-        split; [exact Hsound|]. split; [exact Hcount|]. exact Hdown. }
+    2:{ eexists. split; [reflexivity|]. unfold sinv. cbn [st_q st_conn st_sent st_log st_idle]. split; [exact Hq|]. split; [exact Hwire|]. split; [exact Hsub|]. split; [exact Huniq|].
+        split; [exact Hsound|]. split; [exact Hcount|]. intros H. apply Hdown. right.
+        destruct (st_idle s); [reflexivity|]. cbn [andb] in H. destruct H as [H|H]; congruence. }
     destruct Hrem as (Hset & Hs & Hnone).
     assert (Hpend' : forall c0, pending c0 q' + callw c0 e = pending c0 (st_q s)).
     { intros c0. pose proof (wsum_set (callw c0) _ _ _ _ _ Hset Hs) as W. cbn [wopt] in W. unfold pending. lia. }
@@ -242,40 +242,40 @@ Proof.
     destruct (e_multi e) eqn:Emu.
     + destruct (cs e m) as [[eof x] isans].
       destruct eof.
-      * eexists. split; [reflexivity|]. unfold sinv. cbn [st_q st_conn st_sent st_log].
+      * eexists. split; [reflexivity|]. unfold sinv. cbn [st_q st_conn st_sent st_log st_idle].
         split; [exact Hq'|]. split; [exact Hwire'|]. split; [exact Hsub|]. split; [exact Huniq|]. split.
         { intros c0 m0 H. apply in_app_single in H. destruct H as [H|H]; [|discriminate].
           apply in_app_single in H. destruct H as [H|H]; [eauto|discriminate]. }
-        split; [|apply after_reply_inv; exact Hq'].
+        split; [|eapply after_reply_inv; exact Hq'].
         intros c0. rewrite !tcount_app. cbn [tcount terminal]. specialize (Hcount c0). specialize (Hpend' c0).
         unfold callw in Hpend'. rewrite andb_true_r. destruct isans; cbn [negb andb]; rewrite andb_false_r; lia.
       * destruct (insert_at_spec q' (m_id m) (mkEntry (e_caller e) (e_qs e) true x (e_axfr e)) Hq' Hnone) as (q'' & Ei & Hq'' & Hget'' & _).
         rewrite Ei. cbn [bind]. pose proof (insert_at_shape _ _ _ _ Ei) as Hset2.
-        eexists. split; [reflexivity|]. unfold sinv. cbn [st_q st_conn st_sent st_log].
+        eexists. split; [reflexivity|]. unfold sinv. cbn [st_q st_conn st_sent st_log st_idle].
         split; [exact Hq''|]. split.
         { intros i e0 He. rewrite Hget'' in He. unfold upd in He. destruct (N.eqb_spec i (m_id m)) as [->|]; [|eauto].
           inversion He; subst. cbn [e_caller e_qs]. eauto. }
         split; [exact Hsub|]. split; [exact Huniq|]. split.
         { intros c0 m0 H. apply in_app_single in H. destruct H as [H|H]; [eauto|discriminate]. }
-        split; [|apply after_reply_inv; exact Hq''].
+        split; [|eapply after_reply_inv; exact Hq''].
         intros c0. rewrite tcount_app. cbn [tcount terminal].
         pose proof (wsum_set (callw c0) _ _ _ _ _ Hset2 Hnone) as W. cbn [wopt] in W.
         replace (callw c0 (mkEntry (e_caller e) (e_qs e) true x (e_axfr e))) with (if e_caller e =? c0 then 1 else 0) in W by reflexivity.
         specialize (Hcount c0). specialize (Hpend' c0). unfold callw in Hpend'. unfold pending in *.
         destruct isans; cbn [negb andb]; rewrite andb_false_r; lia.
-    + eexists. split; [reflexivity|]. unfold sinv. cbn [st_q st_conn st_sent st_log].
+    + eexists. split; [reflexivity|]. unfold sinv. cbn [st_q st_conn st_sent st_log st_idle].
       split; [exact Hq'|]. split; [exact Hwire'|]. split; [exact Hsub|]. split; [exact Huniq|]. split.
       { intros c0 m0 H. apply in_app_single in H. destruct H as [H|H]; [eauto|].
         destruct (is_answer (mkReq (m_id m) (e_qs e)) m) eqn:Ea; [|discriminate].
         inversion H; subst. exists (e_qs e). split; [apply Hwire; exact Eg|apply is_answer_sound; exact Ea]. }
-      split; [|apply after_reply_inv; exact Hq'].
+      split; [|eapply after_reply_inv; exact Hq'].
       intros c0. rewrite tcount_app. specialize (Hcount c0). specialize (Hpend' c0). unfold callw in Hpend'.
       cbn [tcount]. destruct (is_answer _ _); cbn [terminal negb]; rewrite andb_true_r; lia.
   - (* the connection fails: every waiter gets the error *)
     destruct (st_conn s) eqn:Econn.
     2:{ exists s. split; [reflexivity|]. unfold sinv. rewrite Econn. split; [exact Hq|]. split; [exact Hwire|]. split; [exact Hsub|]. split; [exact Huniq|].
         split; [exact Hsound|]. split; [exact Hcount|]. exact Hdown. }
-    unfold q_drain. eexists. split; [reflexivity|]. unfold sinv. cbn [st_q st_conn st_sent st_log].
+    unfold q_drain. eexists. split; [reflexivity|]. unfold sinv. cbn [st_q st_conn st_sent st_log st_idle].
     split; [apply q_inv_new|]. split.
     { intros i e He. unfold q_get, slot_at in He. cbn in He. destruct (N.to_nat i); discriminate. }
     split; [exact Hsub|]. split; [exact Huniq|]. split.
@@ -292,14 +292,14 @@ Fixpoint subs_of (evs : list sevent) (S : list N) : list N :=
 Fixpoint fresh_all (evs : list sevent) (S : list N) : Prop :=
   match evs with [] => True | ev :: r => ev_fresh ev S /\ fresh_all r (ev_subs ev S) end.
 
-Lemma s_run_inv cs idle (evs : list sevent) : forall s S,
+Lemma s_run_inv cs (evs : list sevent) : forall s S,
   sinv s S -> fresh_all evs S ->
-  exists s', fold_left (fun acc ev => do s0 <- acc; s_step cs idle s0 ev) evs (Ok s) = Ok s' /\
+  exists s', fold_left (fun acc ev => do s0 <- acc; s_step cs s0 ev) evs (Ok s) = Ok s' /\
              sinv s' (subs_of evs S).
 Proof.
   induction evs as [|ev evs IH]; intros s S Hinv Hf; cbn [fold_left subs_of].
   - eauto.
-  - destruct Hf as (Hf1 & Hf2). destruct (s_step_inv cs idle s S ev Hinv Hf1) as (s1 & E & Hinv1).
+  - destruct Hf as (Hf1 & Hf2). destruct (s_step_inv cs s S ev Hinv Hf1) as (s1 & E & Hinv1).
     cbn [bind]. rewrite E. apply IH; assumption.
 Qed.
 
@@ -345,12 +345,12 @@ Theorem down_completes_all cs idle (evs : list sevent) s :
   forall c, tcount c (st_log s) = inb c (submitted evs).
 Proof.
   intros Hd Hrun Hc c. destruct (demux_all cs idle evs Hd) as (s' & E & Hinv). rewrite Hrun in E. inversion E; subst s'.
-  destruct Hinv as (_ & _ & _ & _ & _ & Hcount & Hdown). specialize (Hcount c). rewrite (Hdown Hc c) in Hcount. lia.
+  destruct Hinv as (_ & _ & _ & _ & _ & Hcount & Hdown). specialize (Hcount c). rewrite (Hdown (or_introl Hc) c) in Hcount. lia.
 Qed.
 
 (* ------------------------------------------------------------ non-vacuity *)
 Definition cs0 (e : entry) (m : msg) : bool * xfr * bool := (m_rcode m =? 1, XDone, true).
-Definition good (id q : N) : msg := mkMsg id true false 0 1 0 0 0 (Some [q]) (Some []).
+Definition good (id q : N) : msg := mkMsg id true false 0 1 0 0 0 (Some [q]) (Some []) None.
 
 Example ex_demux :
   exists s, s_run cs0 false
